@@ -544,13 +544,21 @@ impl OwnedLazyValue {
             JsonSlice::FastStr(f) => f.clone(),
         };
 
-        if status == HasEsc::None {
-            Self(LazyPacked::NonEscStrRaw(raw))
-        } else {
-            Self(LazyPacked::Raw(LazyRaw {
+        Self::from_raw(raw, status == HasEsc::None)
+    }
+
+    // `raw` is a valid JSON value without surrounding spaces
+    fn from_raw(raw: FastStr, no_escaped: bool) -> Self {
+        match raw.as_bytes()[0] {
+            // the literals have no lazy form
+            b't' => true.into(),
+            b'f' => false.into(),
+            b'n' => ().into(),
+            b'"' if no_escaped => Self(LazyPacked::NonEscStrRaw(raw)),
+            _ => Self(LazyPacked::Raw(LazyRaw {
                 raw,
                 parsed: AtomicPtr::new(std::ptr::null_mut()),
-            }))
+            })),
         }
     }
 
@@ -584,14 +592,7 @@ impl OwnedLazyValue {
 impl<'de> From<LazyValue<'de>> for OwnedLazyValue {
     fn from(lv: LazyValue<'de>) -> Self {
         let raw = unsafe { lv.raw.as_faststr() };
-        if lv.inner.no_escaped() && raw.as_bytes()[0] == b'"' {
-            return Self(LazyPacked::NonEscStrRaw(raw));
-        }
-
-        Self(LazyPacked::Raw(LazyRaw {
-            raw,
-            parsed: AtomicPtr::new(std::ptr::null_mut()),
-        }))
+        Self::from_raw(raw, lv.inner.no_escaped())
     }
 }
 
